@@ -1004,6 +1004,46 @@ KNOWN_PRED = {
 }
 
 
+def media_edit_part(ctx):
+    """the media of an @import rule changed through the DOM after the parse (rule.media = ..., rule.media.mediaText = ...):
+    flattening wraps the imported rules in the media the rule has THEN.  Search only."""
+    import cssutils
+    from harness import impl
+    files = {'http://h/a.css': '@import "b.css" screen; @import "c.css"; a{left:0}', 'http://h/b.css': 'b{top:0}', 'http://h/c.css': 'c{right:0}'}
+    for edit_b in (None, 'print', 'all', 'tv, print'):
+        for edit_c in (None, 'print', 'all'):
+            for how in ('assign', 'mediaText'):
+                impl.reset()
+                install_stub()
+                case = {'family': 'import-media-edit', 'b.css': edit_b, 'c.css': edit_c, 'how': how}
+                ctx.case(('media-edit', edit_b, edit_c, how))
+                try:
+                    sheet = cssutils.CSSParser(fetcher=lambda url: (None, files[url]) if url in files else None).parseString(files['http://h/a.css'], href='http://h/a.css')
+                    imps = [r for r in sheet.cssRules if r.type == r.IMPORT_RULE]
+                    for r, e in zip(imps, (edit_b, edit_c)):
+                        if e is not None:
+                            if how == 'assign':
+                                r.media = e
+                            else:
+                                r.media.mediaText = e
+                    want = {name: cssutils.stylesheets.MediaList(r.media.mediaText).mediaText for name, r in zip('bc', imps)}
+                    flat = cssutils.resolveImports(sheet)
+                    got = {}
+                    for r in flat.cssRules:
+                        if r.type == r.STYLE_RULE and r.selectorText in 'bc':
+                            got[r.selectorText] = 'all'
+                        elif r.type == r.MEDIA_RULE:
+                            for x in r.cssRules:
+                                if x.type == x.STYLE_RULE and x.selectorText in 'bc':
+                                    got[x.selectorText] = r.media.mediaText
+                except Exception as e:  # noqa
+                    ctx.violation('flatten-raises', case, '%s: %s' % (type(e).__name__, e), KNOWN_PRED)
+                    continue
+                if got != want:
+                    ctx.violation('cascade', case, 'imported rules apply to %r, their @import rules say %r' % (got, want), KNOWN_PRED)
+    install_stub()
+
+
 def combine_namespace_part(ctx, n):
     """csscombine (normal and minified) over sheets whose namespaces are used at the top level, only inside @media and
     only inside nested @media: the output, parsed again, holds every style rule of the combined sheet with the same
@@ -1067,6 +1107,7 @@ def run(ctx):
     mc = flatten_part(ctx, 600 if quick else 9000, 250 if quick else 3500)
     run_flatten_model(ctx, mc, 'flatten')
     combine_namespace_part(ctx, 40 if quick else 600)
+    media_edit_part(ctx)
     mc2 = cycles_part(ctx, 100 if quick else 1200)
     run_flatten_model(ctx, mc2, 'flatten_cyclic')
 
